@@ -24,17 +24,17 @@ Section T.
   Fixpoint rep (r : re) (k : nat) : re := match k with O => REps | S k' => RCat r (rep r k') end.
   Fixpoint opt_rep (r : re) (k : nat) : re := match k with O => REps | S k' => RCat (RAlt r REps) (opt_rep r k') end.
 
-  Fixpoint translate (p : pyre) : re :=
+  Fixpoint py_translate (p : pyre) : re :=
     match p with
     | PLit c => RSym c
     | PDot => alt_of (filter (fun c => negb (N.eqb c newline)) universe)
     | PSet false rs => alt_of (filter (fun c => in_ranges c rs) universe)
     | PSet true rs => alt_of (filter (fun c => negb (in_ranges c rs)) universe)
-    | PCat a b => RCat (translate a) (translate b)
-    | PAlt a b => RAlt (translate a) (translate b)
-    | PStar a => RStar (translate a)
-    | PPlus a => RCat (translate a) (RStar (translate a))
-    | POpt a => RAlt (translate a) REps
-    | PRep a m n => RCat (rep (translate a) m) (opt_rep (translate a) (n - m))
+    | PCat a b => RCat (py_translate a) (py_translate b)
+    | PAlt a b => RAlt (py_translate a) (py_translate b)
+    | PStar a => RStar (py_translate a)
+    | PPlus a => RCat (py_translate a) (RStar (py_translate a))
+    | POpt a => RAlt (py_translate a) REps
+    | PRep a m n => RCat (rep (py_translate a) m) (opt_rep (py_translate a) (n - m))
     end.
 End T.
